@@ -60,67 +60,72 @@ Print Assumptions C02_nonneg_history.
    non-negative amounts; when they reject, the transaction is a no-op (tx_ops None = None; run_tx of a refused
    list is the identity).  Guards used: SEND/SENDPOOL/DOMAIN_SEND Amount.IsValid; STAKE/UNSTAKE/WITHDRAW value >= 0
    and fits int64 (48c76fc: then the narrowed debit ToCoinWithBase(v) equals the credit v); delegation kinds coin
-   valid and OLT (1d1d85c); PROPOSAL_CREATE initial-funding option <= v; DOMAIN_* price > base price / per-block fee,
+   valid and OLT (1d1d85c); PROPOSAL_CREATE initial-funding option <= v; PROPOSAL_FUND / PROPOSAL_WITHDRAW_FUNDS v > 0 (65cdcf3, 7960770); DOMAIN_* price > base price / per-block fee,
    asking price <= offer.  no_creation ops := forall c, minted c ops - burned c ops <= 0;
    credits_ok ops := every added amount >= 0 (with C02_nonneg_tx: no record becomes negative). *)
 Theorem C02_no_creation_send : forall known cur from to v payer fp fee ops, 0 <= fee -> effect_send known cur from to v = Some ops ->
   no_creation (ops ++ fee_ops payer fp fee) /\ credits_ok (ops ++ fee_ops payer fp fee).
-Proof. intros known cur from to v payer fp fee ops Hfee. intros. edestruct (send_facts payer fp fee Hfee) as [A [B _]]; eauto. Qed.
+Proof. exact send_no_creation. Qed.
 Print Assumptions C02_no_creation_send.
 Theorem C02_no_creation_sendpool : forall known cur from pool v payer fp fee ops, 0 <= fee -> effect_sendpool known cur from pool v = Some ops ->
   no_creation (ops ++ fee_ops payer fp fee) /\ credits_ok (ops ++ fee_ops payer fp fee).
-Proof. intros known cur from pool v payer fp fee ops Hfee. intros. edestruct (sendpool_facts payer fp fee Hfee) as [A [B _]]; eauto. Qed.
+Proof. exact sendpool_no_creation. Qed.
 Print Assumptions C02_no_creation_sendpool.
 Theorem C02_no_creation_stake : forall known cur staker val v payer fp fee ops, 0 <= fee -> effect_stake known cur staker val v = Some ops ->
   no_creation (ops ++ fee_ops payer fp fee) /\ credits_ok (ops ++ fee_ops payer fp fee).
-Proof. intros known cur staker val v payer fp fee ops Hfee. intros. edestruct (stake_facts payer fp fee Hfee) as [A [B _]]; eauto. Qed.
+Proof. exact stake_no_creation. Qed.
 Print Assumptions C02_no_creation_stake.
 Theorem C02_no_creation_unstake : forall known cur staker val v h payer fp fee ops, 0 <= fee -> effect_unstake known cur staker val v h = Some ops ->
   no_creation (ops ++ fee_ops payer fp fee) /\ credits_ok (ops ++ fee_ops payer fp fee).
-Proof. intros known cur staker val v h payer fp fee ops Hfee. intros. edestruct (unstake_facts payer fp fee Hfee) as [A [B _]]; eauto. Qed.
+Proof. exact unstake_no_creation. Qed.
 Print Assumptions C02_no_creation_unstake.
 Theorem C02_no_creation_withdraw : forall known cur staker v payer fp fee ops, 0 <= fee -> effect_withdraw known cur staker v = Some ops ->
   no_creation (ops ++ fee_ops payer fp fee) /\ credits_ok (ops ++ fee_ops payer fp fee).
-Proof. intros known cur staker v payer fp fee ops Hfee. intros. edestruct (withdraw_facts payer fp fee Hfee) as [A [B _]]; eauto. Qed.
+Proof. exact withdraw_no_creation. Qed.
 Print Assumptions C02_no_creation_withdraw.
 Theorem C02_no_creation_delegate : forall known cur u pool v payer fp fee ops, 0 <= fee -> effect_delegate known cur u pool v = Some ops ->
   no_creation (ops ++ fee_ops payer fp fee) /\ credits_ok (ops ++ fee_ops payer fp fee).
-Proof. intros known cur u pool v payer fp fee ops Hfee. intros. edestruct (delegate_facts payer fp fee Hfee) as [A [B _]]; eauto. Qed.
+Proof. exact delegate_no_creation. Qed.
 Print Assumptions C02_no_creation_delegate.
 Theorem C02_no_creation_undelegate : forall known cur u pool v h payer fp fee ops, 0 <= fee -> effect_undelegate known cur u pool v h = Some ops ->
   no_creation (ops ++ fee_ops payer fp fee) /\ credits_ok (ops ++ fee_ops payer fp fee).
-Proof. intros known cur u pool v h payer fp fee ops Hfee. intros. edestruct (undelegate_facts payer fp fee Hfee) as [A [B _]]; eauto. Qed.
+Proof. exact undelegate_no_creation. Qed.
 Print Assumptions C02_no_creation_undelegate.
 Theorem C02_no_creation_rewards_withdraw : forall known cur u v h payer fp fee ops, 0 <= fee -> effect_rewards_withdraw known cur u v h = Some ops ->
   no_creation (ops ++ fee_ops payer fp fee) /\ credits_ok (ops ++ fee_ops payer fp fee).
-Proof. intros known cur u v h payer fp fee ops Hfee. intros. edestruct (rewards_withdraw_facts payer fp fee Hfee) as [A [B _]]; eauto. Qed.
+Proof. exact rewards_withdraw_no_creation. Qed.
 Print Assumptions C02_no_creation_rewards_withdraw.
 Theorem C02_no_creation_reinvest : forall known cur u pool v payer fp fee ops, 0 <= fee -> effect_reinvest known cur u pool v = Some ops ->
   no_creation (ops ++ fee_ops payer fp fee) /\ credits_ok (ops ++ fee_ops payer fp fee).
-Proof. intros known cur u pool v payer fp fee ops Hfee. intros. edestruct (reinvest_facts payer fp fee Hfee) as [A [B _]]; eauto. Qed.
+Proof. exact reinvest_no_creation. Qed.
 Print Assumptions C02_no_creation_reinvest.
 Theorem C02_no_creation_proposal_create : forall known cur p prop v init goal payer fp fee ops, 0 <= fee -> 0 <= init -> effect_proposal_create known cur p prop v init goal = Some ops ->
   no_creation (ops ++ fee_ops payer fp fee) /\ credits_ok (ops ++ fee_ops payer fp fee).
-Proof. intros known cur p prop v init goal payer fp fee ops Hfee. intros. edestruct (proposal_create_facts payer fp fee Hfee) as [A [B _]]; eauto. Qed.
+Proof. exact proposal_create_no_creation. Qed.
 Print Assumptions C02_no_creation_proposal_create.
+Theorem C02_no_creation_proposal_fund : forall known cur f prop v payer fp fee ops, 0 <= fee -> effect_proposal_fund known cur f prop v = Some ops ->
+  no_creation (ops ++ fee_ops payer fp fee) /\ credits_ok (ops ++ fee_ops payer fp fee).
+Proof. exact proposal_fund_no_creation. Qed.
+Print Assumptions C02_no_creation_proposal_fund.
+Theorem C02_no_creation_proposal_withdraw : forall known cur f b prop v payer fp fee ops, 0 <= fee -> effect_proposal_withdraw known cur f b prop v = Some ops ->
+  no_creation (ops ++ fee_ops payer fp fee) /\ credits_ok (ops ++ fee_ops payer fp fee).
+Proof. exact proposal_withdraw_no_creation. Qed.
+Print Assumptions C02_no_creation_proposal_withdraw.
 Theorem C02_no_creation_domain_create : forall known cur o fp v base payer fee ops, 0 <= fee -> 0 <= base -> effect_domain_create known cur o fp v base = Some ops ->
   no_creation (ops ++ fee_ops payer fp fee) /\ credits_ok (ops ++ fee_ops payer fp fee).
-Proof. intros known cur o fp v base payer fee ops Hfee. intros. edestruct (domain_create_facts payer fp fee Hfee) as [A [B _]]; eauto. Qed.
+Proof. exact domain_create_no_creation. Qed.
 Print Assumptions C02_no_creation_domain_create.
 Theorem C02_no_creation_domain_renew : forall known cur o fp v pb payer fee ops, 0 <= fee -> 0 <= pb -> effect_domain_renew known cur o fp v pb = Some ops ->
   no_creation (ops ++ fee_ops payer fp fee) /\ credits_ok (ops ++ fee_ops payer fp fee).
-Proof. intros known cur o fp v pb payer fee ops Hfee. intros. edestruct (domain_renew_facts payer fp fee Hfee) as [A [B _]]; eauto. Qed.
+Proof. exact domain_renew_no_creation. Qed.
 Print Assumptions C02_no_creation_domain_renew.
 Theorem C02_no_creation_domain_purchase : forall known cur buyer fp offer on_sale sale seller base payer fee ops, 0 <= fee -> 0 <= sale -> 0 <= base -> effect_domain_purchase known cur buyer fp offer on_sale sale seller base = Some ops ->
   no_creation (ops ++ fee_ops payer fp fee) /\ credits_ok (ops ++ fee_ops payer fp fee).
-Proof.
-  intros known cur buyer fp offer on_sale sale seller base payer fee ops Hfee Hs Hb H.
-  destruct (domain_purchase_facts payer fp fee Hfee known cur buyer offer on_sale sale seller base ops Hs Hb H) as [A [B C]]. split; assumption.
-Qed.
+Proof. exact domain_purchase_no_creation. Qed.
 Print Assumptions C02_no_creation_domain_purchase.
 Theorem C02_no_creation_domain_send : forall known cur from benef v payer fp fee ops, 0 <= fee -> effect_domain_send known cur from benef v = Some ops ->
   no_creation (ops ++ fee_ops payer fp fee) /\ credits_ok (ops ++ fee_ops payer fp fee).
-Proof. intros known cur from benef v payer fp fee ops Hfee. intros. edestruct (domain_send_facts payer fp fee Hfee) as [A [B _]]; eauto. Qed.
+Proof. exact domain_send_no_creation. Qed.
 Print Assumptions C02_no_creation_domain_send.
 
 (* WITHDRAW_REWARD: the code has no sign check; creation-free for every amount, credits >= 0 under 0 <= wrap64 v
@@ -128,37 +133,21 @@ Print Assumptions C02_no_creation_domain_send.
 Theorem C02_no_creation_withdraw_reward : forall known cur signer rpool v payer fp fee ops, 0 <= fee ->
   effect_withdraw_reward known cur signer rpool v = Some ops ->
   no_creation (ops ++ fee_ops payer fp fee) /\ (0 <= wrap64 v -> credits_ok (ops ++ fee_ops payer fp fee)).
-Proof. intros known cur signer rpool v payer fp fee ops Hfee H. destruct (withdraw_reward_facts payer fp fee Hfee _ _ _ _ _ _ H) as [A [_ C]]. auto. Qed.
+Proof. exact withdraw_reward_no_creation. Qed.
 Print Assumptions C02_no_creation_withdraw_reward.
 
-(* PROPOSAL_FUND and PROPOSAL_WITHDRAW_FUNDS: no sign check in Validate or handler.  Creation-free for every amount;
-   "no negative record" only PARTIAL, outside the triggers C02.proposal_fund_negative / C02.withdraw_funds_negative *)
-Definition trig_amount_negative (v : Z) : bool := v <? 0.
-Theorem C02_no_creation_proposal_fund_partial : forall known cur f prop v payer fp fee ops, 0 <= fee ->
-  effect_proposal_fund known cur f prop v = Some ops ->
-  no_creation (ops ++ fee_ops payer fp fee) /\ (trig_amount_negative v = false -> credits_ok (ops ++ fee_ops payer fp fee)).
-Proof.
-  intros known cur f prop v payer fp fee ops Hfee H. destruct (proposal_fund_facts payer fp fee Hfee _ _ _ _ _ _ H) as [A [_ C]].
-  split; auto. unfold trig_amount_negative. intros T. apply C. apply Z.ltb_ge. exact T.
-Qed.
-Print Assumptions C02_no_creation_proposal_fund_partial.
-Theorem C02_no_creation_proposal_withdraw_partial : forall known cur f b prop v payer fp fee ops, 0 <= fee ->
-  effect_proposal_withdraw known cur f b prop v = Some ops ->
-  no_creation (ops ++ fee_ops payer fp fee) /\ (trig_amount_negative v = false -> credits_ok (ops ++ fee_ops payer fp fee)).
-Proof.
-  intros known cur f b prop v payer fp fee ops Hfee H. destruct (proposal_withdraw_facts payer fp fee Hfee _ _ _ _ _ _ _ H) as [A C].
-  split; auto. unfold trig_amount_negative. intros T. apply C. apply Z.ltb_ge. exact T.
-Qed.
-Print Assumptions C02_no_creation_proposal_withdraw_partial.
-
-(* closed witnesses (reproduced on the real code: findings/C02_proposal_fund_negative.json, C02_withdraw_funds_negative.json) *)
+(* PROPOSAL_FUND and PROPOSAL_WITHDRAW_FUNDS are FULL since /repo 65cdcf3 / 7960770 (the handlers require a positive amount).
+   The former refutation witnesses (findings C02.proposal_fund_negative / C02.withdraw_funds_negative, fixed) are rejected now: *)
 Definition l_w : gmap key Z := ladd (ladd ∅ (bal 1 0) 1000) (bal 2 0) 3.
-Theorem C02_nonneg_refuted_proposal_fund : exists v ops, trig_amount_negative v = true /\
-  effect_proposal_fund true 0 1 7 v = Some ops /\ lget (run_tx l_w ops) (mk 1 B_PROPFUND 0 7) < 0.
-Proof. exists (-5), [Burn (bal 1 0) (-5); Mint (mk 1 B_PROPFUND 0 7) (-5)]. vm_compute. auto. Qed.
-Theorem C02_nonneg_refuted_proposal_withdraw : exists v ops, trig_amount_negative v = true /\
-  effect_proposal_withdraw true 0 1 2 7 v = Some ops /\ lget (run_tx l_w ops) (bal 2 0) < 0.
-Proof. exists (-5), [Burn (mk 1 B_PROPFUND 0 7) (-5); Mint (bal 2 0) (-5)]. vm_compute. auto. Qed.
+Example C02_former_witness_proposal_fund_rejected :
+  effect_proposal_fund true 0 1 7 (-5) = None /\ effect_proposal_fund true 0 1 7 0 = None /\
+  run_tx l_w (default [] (tx_ops (effect_proposal_fund true 0 1 7 (-5)) 1 9 1)) = l_w /\
+  effect_proposal_fund true 0 1 7 5 = Some [Burn (bal 1 0) 5; Mint (mk 1 B_PROPFUND 0 7) 5].
+Proof. vm_compute. auto. Qed.
+Example C02_former_witness_proposal_withdraw_rejected :
+  effect_proposal_withdraw true 0 1 2 7 (-5) = None /\ effect_proposal_withdraw true 0 1 2 7 0 = None /\
+  effect_proposal_withdraw true 0 1 2 7 5 = Some [Burn (mk 1 B_PROPFUND 0 7) 5; Mint (bal 2 0) 5].
+Proof. vm_compute. auto. Qed.
 
 (* a transaction that creates nothing does not raise the total; lifted to blocks / histories by C02_block_total_bound *)
 Theorem C02_no_creation_total : forall c l ops, no_creation ops -> total c (run_tx l ops) <= total c l.
@@ -178,6 +167,17 @@ Print Assumptions C02_fee_distribution_conservative.
 Theorem C02_fee_distribution_credits : forall fp total minfee tp vals, 0 <= total -> forallb credit_nonneg (fee_dist_ops fp total minfee tp vals) = true.
 Proof. exact fee_dist_credits. Qed.
 Print Assumptions C02_fee_distribution_credits.
+(* the allegation penalty (guilty verdict at EndBlock) destroys at least what the bounty program receives: for every ledger,
+   validator, option values with 0 <= bounty% <= bountyDecimals; C19 proves the penalty's size and the verdict rule *)
+Theorem C02_no_creation_allegation_penalty : forall (l : gmap key Z) (stake val bounty : N) (pct dec bpct bdec : Z),
+  0 <= val_total l val -> 0 <= pct -> 0 < dec -> 0 <= bpct <= bdec -> 0 < bdec ->
+  no_creation (penalty_ops l stake val bounty pct dec bpct bdec) /\ credits_ok (penalty_ops l stake val bounty pct dec bpct bdec) /\
+  takes_only_from (penalty_ops l stake val bounty pct dec bpct bdec) [stake].
+Proof. exact penalty_ops_facts. Qed.
+Print Assumptions C02_no_creation_allegation_penalty.
+Example C02_ex_penalty : let l := ladd ∅ (mk 3 B_STAKE 0 4) (3000000 * E18) in
+  penalty_ops l 3 4 8 30 100 50 100 = [Burn (mk 3 B_STAKE 0 4) (900000 * E18); Mint (bal 8 0) (450000 * E18)].
+Proof. vm_compute. reflexivity. Qed.
 Example C02_ex_fee_distribution : fee_dist_ops 9 100 10 7 [(1%N, 3); (2%N, 4); (3%N, 0)] =
   [Move (feepool 9) (mk 1 B_FEE 0 0) 42; Move (feepool 9) (mk 2 B_FEE 0 0) 57].
 Proof. vm_compute. reflexivity. Qed.
